@@ -529,6 +529,39 @@ static std::string exec(const std::vector<std::string>& t, std::string& preds) {
         return std::string("ok=") + (ok ? "1" : "0") + " cp=" + (cp ? "1" : "0") + " " + obj_line(g_url[k], preds);
     }
     // ---- self-referential arguments: the argument is a VIEW of the object's own storage
+    if (op == "aparsebg" && t.size() == 3) {
+        // BOTH the input and the base are the object itself: u.parse(u.<getter>(), &u)
+        const int k = std::atoi(t[1].c_str());
+        upa::url& u = g_url[k];
+        if (!u.is_valid()) return obj_line(u, preds);
+        const std::string& g = t[2];
+        auto view = [&]() -> upa::string_view {
+            if (g == "href") return u.href(); if (g == "protocol") return u.protocol(); if (g == "pathname") return u.pathname();
+            if (g == "search") return u.search(); if (g == "hash") return u.hash(); if (g == "host") return u.host(); return u.path();
+        };
+        const std::string copy(view().data(), view().size());
+        const upa::url base_copy(u);
+        const bool cp = upa::url::can_parse(copy, &base_copy);
+        bool ct = false; std::string ctor_state;
+        try { upa::url c(copy, &base_copy); ctor_state = full_state(c); ct = true; } catch (const upa::url_error&) { ct = false; }
+        const bool ok = u.parse(view(), &u) == upa::validation_errc::ok;
+        preds += (ok == ct && (!ok || ctor_state == full_state(u))) ? " ct=1" : " ct=0";
+        return std::string("ok=") + (ok ? "1" : "0") + " cp=" + (cp ? "1" : "0") + " " + obj_line(u, preds);
+    }
+    if (op == "aparsesp" && t.size() == 4) {
+        // the input is a view of one of the URL's OWN search parameter values: u.parse(*u.search_params().get(name))
+        const int k = std::atoi(t[1].c_str());
+        upa::url& u = g_url[k];
+        const std::string* v = u.is_valid() ? with_arg(t[2], parse_units(t[3]), [&](auto&& n) { return u.search_params().get(n); }) : nullptr;
+        if (!v) return obj_line(u, preds);
+        const std::string copy(*v);
+        const bool cp = upa::url::can_parse(copy);
+        bool ct = false; std::string ctor_state;
+        try { upa::url c(copy); ctor_state = full_state(c); ct = true; } catch (const upa::url_error&) { ct = false; }
+        const bool ok = u.parse(*v, nullptr) == upa::validation_errc::ok;
+        preds += (ok == ct && (!ok || ctor_state == full_state(u))) ? " ct=1" : " ct=0";
+        return std::string("ok=") + (ok ? "1" : "0") + " cp=" + (cp ? "1" : "0") + " " + obj_line(u, preds);
+    }
     if ((op == "aset" && t.size() == 4) || (op == "aparse" && t.size() == 2) || (op == "aparseb" && t.size() == 4)) {
         const int k = std::atoi(t[1].c_str());
         upa::url& u = g_url[k];
@@ -647,6 +680,7 @@ static std::string exec(const std::vector<std::string>& t, std::string& preds) {
         }
         else if (o == "sort") sp.sort();
         else if (o == "clear") sp.clear();
+        else if (o == "aset2") { if (sp.empty()) r = "0"; else { sp.set(std::prev(sp.end(), sp.size() >= 2 ? 2 : 1)->first, sp.begin()->second); amut = true; } }
         else if (o == "aparse") {
             // the argument is a view of one of the list's own values: sp.parse(*sp.get(name))
             const std::string* v = with_arg(E(0), A(0), [&](auto&& n) { return sp.get(n); });
@@ -709,6 +743,9 @@ static std::string exec(const std::vector<std::string>& t, std::string& preds) {
         }
         else if (o == "aappend") { if (p.empty()) r = "0"; else p.append(p.begin()->first, p.begin()->second); }
         else if (o == "aset") { if (p.empty()) r = "0"; else p.set(p.begin()->first, std::prev(p.end())->second); }
+        else if (o == "aset2") { if (p.empty()) r = "0"; else p.set(std::prev(p.end(), p.size() >= 2 ? 2 : 1)->first, p.begin()->second); }
+        else if (o == "adel") { if (p.empty()) r = "0"; else p.del(std::prev(p.end(), p.size() >= 2 ? 2 : 1)->first); }
+        else if (o == "adel2") { if (p.empty()) r = "0"; else p.del(std::prev(p.end())->first, std::prev(p.end())->second); }
         else if (o == "size") r = std::to_string(p.size());
         else if (o == "copy") p = g_params[std::atoi(t[3].c_str())];
         else if (o == "fromurl" && !g_url[std::atoi(t[3].c_str())].is_valid()) r = "?";   // params of an invalid URL are not observed
